@@ -333,9 +333,15 @@ def run_foreign(kind):
         body = bytes([4]) + (1700000000).to_bytes(4, 'big') + bytes([21]) + mpi((1 << 1023) | 12345) + mpi(2) + mpi((1 << 1000) | 999) + bytes([0]) + mpi(secret)
         body += (sum(mpi(secret)) % 65536).to_bytes(2, 'big')
         blob = _pkt(5, body) + _pkt(13, b'DH key <dh@x>')
+    elif kind == 'old-format packet headers on every packet (as GnuPG writes keys)':
+        from bounded.sig_conformance import old_packet
+        b.add_sub('cv25519', dt(1), {KeyFlags.EncryptCommunications}, slot=1)
+        blob = b''.join(old_packet(t, body) for t, body, _ in indep.packets(bytes(b.k)))
     try:
         loaded = pgpy.PGPKey.from_blob(blob)[0]
     except Exception as ex:
+        if kind.startswith('old-format'):
+            return [{'case': case, 'nontrivial': True, 'n': 1, 'secrets': 1, 'problems': ['a key with old-format packet headers is refused: %s' % type(ex).__name__]}]
         return [{'case': case, 'nontrivial': True, 'n': 1, 'secrets': 1, 'problems': []}]       # refusing such a blob is fine
     objs = [('the loaded key', loaded)]
     try:
@@ -348,6 +354,12 @@ def run_foreign(kind):
             pub = k.pubkey if not k.is_public else k
             for form, octets in (('binary', bytes(pub)), ('armored', dearmor(str(pub))[1])):
                 tags = sorted(set(t for t, _, _ in indep.packets(octets)) - PUBLIC_TAGS)
+                if kind.startswith('old-format'):
+                    # the derived public key is the public key packet sequence of this key: 6, 13, 2, 14, 2 with the public bodies
+                    want = [(6 if t == 5 else 14 if t == 7 else t) for t, _, _ in indep.packets(blob)]
+                    got = [t for t, _, _ in indep.packets(octets)]
+                    if got != want:
+                        problems.append('public key derived from %s (%s): packet tags %s, expected %s' % (label, form, got, want))
                 if tags:
                     problems.append('public key derived from %s (%s): packet tags %s' % (label, form, tags))
                 if MARK in octets:
@@ -358,7 +370,7 @@ def run_foreign(kind):
 
 
 FOREIGN_KINDS = ['experimental packet (tag 60) after the key', 'version 5 secret subkey packet after the key',
-                 'secret key of an unimplemented algorithm (X9.42 DH, id 21)']
+                 'secret key of an unimplemented algorithm (X9.42 DH, id 21)', 'old-format packet headers on every packet (as GnuPG writes keys)']
 
 
 def _worker(args):
